@@ -441,41 +441,66 @@ Qed.
 Lemma Rdiv_0_l x : 0 / x = 0.
 Proof. unfold Rdiv. lra. Qed.
 
+Lemma cap13_Rmin w : cap13 w = Rmin w 13.
+Proof.
+  unfold cap13. runfold. destruct (Rltb 13 w) eqn:Hc.
+  - apply Rltb_true in Hc. rewrite Rmin_right; lra.
+  - apply Rltb_false in Hc. rewrite Rmin_left; lra.
+Qed.
+
+Lemma tanh13_0 x : tanh13 (0 / x) = 0.
+Proof. unfold tanh13. rewrite Rdiv_0_l, Rmin_left by lra. apply tanh_0. Qed.
+
+(** one day of the production store = the published equations with tanh(min(w,13)) *)
+Lemma gr4j_production_capped x1 S P E : 0 < x1 -> 0 <= S <= x1 -> 0 <= P -> 0 <= E ->
+  gr4j_production x1 S P E = spec_production_with tanh13 x1 S P E.
+Proof.
+  intros Hx HS HP HE. unfold spec_production_with. destruct (Rltb E P) eqn:Hc.
+  - apply Rltb_true in Hc. rewrite production_wet by (apply Rltb_true; auto).
+    rewrite (Rmax_left (P - E) 0) by lra. rewrite (Rmax_right (E - P) 0) by lra.
+    rewrite !tanh13_0. unfold tanh13. rewrite <- !cap13_Rmin.
+    assert (Hw : 0 <= (P - E) / x1).
+    { unfold Rdiv; apply Rmult_le_pos; [lra|left; now apply Rinv_0_lt_compat]. }
+    destruct (tanh_cap _ Hw) as [Ht Htl].
+    destruct (wetPs_facts x1 S _ (P - E) Hx HS Ht Htl) as [HPs [HPs1 HPs2]].
+    rewrite <- HPs. set (Ps := wetPs x1 S (tanh (cap13 ((P - E) / x1)))) in *. cbv zeta.
+    replace (S * (2 - S / x1) * 0 / (1 + (1 - S / x1) * 0)) with 0 by (unfold Rdiv; rewrite !Rmult_0_r; lra).
+    destruct (percS_facts x1 (S - 0 + Ps) Hx ltac:(lra)) as [Hpe _]. rewrite Hpe. reflexivity.
+  - apply Rltb_false in Hc. rewrite production_dry by (apply Rltb_false; auto).
+    rewrite (Rmax_right (P - E) 0) by lra. rewrite (Rmax_left (E - P) 0) by lra.
+    rewrite !tanh13_0. unfold tanh13. rewrite <- !cap13_Rmin.
+    assert (Hw : 0 <= (E - P) / x1).
+    { unfold Rdiv; apply Rmult_le_pos; [lra|left; now apply Rinv_0_lt_compat]. }
+    destruct (tanh_cap _ Hw) as [Ht Htl].
+    pose proof (dryEs_facts x1 S _ Hx HS Ht) as HEs.
+    change (S * (2 - S / x1) * tanh (cap13 ((E - P) / x1)) / (1 + (1 - S / x1) * tanh (cap13 ((E - P) / x1))))
+      with (dryEs x1 S (tanh (cap13 ((E - P) / x1)))).
+    set (Es := dryEs x1 S (tanh (cap13 ((E - P) / x1)))) in *. cbv zeta.
+    replace (x1 * (1 - (S / x1) ^ 2) * 0 / (1 + S / x1 * 0)) with 0 by (unfold Rdiv; rewrite !Rmult_0_r; lra).
+    destruct (percS_facts x1 (S - Es + 0) Hx ltac:(lra)) as [Hpe _]. rewrite Hpe.
+    f_equal. lra.
+Qed.
+
+(** where |P - E| <= 13 x1 the cap is inactive *)
+Lemma spec_production_cap_inactive x1 S P E : 0 < x1 -> Rabs (P - E) <= 13 * x1 ->
+  spec_production_with tanh13 x1 S P E = spec_production_with tanh x1 S P E.
+Proof.
+  intros Hx Hcap. unfold spec_production_with.
+  assert (A : forall v, 0 <= v <= Rabs (P - E) -> tanh13 (v / x1) = tanh (v / x1)).
+  { intros v Hv. unfold tanh13. rewrite Rmin_left; auto.
+    apply Rmult_le_reg_r with x1; auto. unfold Rdiv. rewrite Rmult_assoc, Rinv_l; lra. }
+  assert (B : 0 <= Rmax (P - E) 0 <= Rabs (P - E)).
+  { split; [apply Rmax_r|]. apply Rmax_lub; [apply Rle_abs|apply Rabs_pos]. }
+  assert (C : 0 <= Rmax (E - P) 0 <= Rabs (P - E)).
+  { split; [apply Rmax_r|]. apply Rmax_lub; [rewrite Rabs_minus_sym; apply Rle_abs|apply Rabs_pos]. }
+  rewrite !(A _ B), !(A _ C). reflexivity.
+Qed.
+
 Lemma gr4j_production_spec x1 S P E : 0 < x1 -> 0 <= S <= x1 -> 0 <= P -> 0 <= E ->
   Rabs (P - E) <= 13 * x1 ->
   gr4j_production x1 S P E = spec_production x1 S P E.
 Proof.
-  intros Hx HS HP HE Hcap. unfold spec_production. destruct (Rltb E P) eqn:Hc.
-  - apply Rltb_true in Hc. rewrite production_wet by (apply Rltb_true; auto).
-    rewrite Rabs_right in Hcap by lra.
-    rewrite (Rmax_left (P - E) 0) by lra. rewrite (Rmax_right (E - P) 0) by lra.
-    rewrite Rdiv_0_l, tanh_0.
-    assert (Hw : 0 <= (P - E) / x1 <= 13).
-    { split; [unfold Rdiv; apply Rmult_le_pos; [lra|left; now apply Rinv_0_lt_compat]|].
-      apply Rmult_le_reg_r with x1; auto. unfold Rdiv. rewrite Rmult_assoc, Rinv_l; lra. }
-    rewrite cap13_id by lra.
-    assert (Ht : 0 <= tanh ((P - E) / x1) < 1) by (split; [apply tanh_nonneg; lra|apply tanh_lt_1]).
-    pose proof (tanh_le_id ((P - E) / x1) ltac:(lra)) as Htl.
-    destruct (wetPs_facts x1 S _ (P - E) Hx HS Ht Htl) as [HPs [HPs1 HPs2]].
-    rewrite <- HPs. set (Ps := wetPs x1 S (tanh ((P - E) / x1))) in *. cbv zeta.
-    replace (S * (2 - S / x1) * 0 / (1 + (1 - S / x1) * 0)) with 0 by (unfold Rdiv; rewrite !Rmult_0_r; lra).
-    destruct (percS_facts x1 (S - 0 + Ps) Hx ltac:(lra)) as [Hpe _]. rewrite Hpe. reflexivity.
-  - apply Rltb_false in Hc. rewrite production_dry by (apply Rltb_false; auto).
-    rewrite Rabs_left1 in Hcap by lra.
-    rewrite (Rmax_right (P - E) 0) by lra. rewrite (Rmax_left (E - P) 0) by lra.
-    rewrite Rdiv_0_l, tanh_0.
-    assert (Hw : 0 <= (E - P) / x1 <= 13).
-    { split; [unfold Rdiv; apply Rmult_le_pos; [lra|left; now apply Rinv_0_lt_compat]|].
-      apply Rmult_le_reg_r with x1; auto. unfold Rdiv. rewrite Rmult_assoc, Rinv_l; lra. }
-    rewrite cap13_id by lra.
-    assert (Ht : 0 <= tanh ((E - P) / x1) < 1) by (split; [apply tanh_nonneg; lra|apply tanh_lt_1]).
-    pose proof (dryEs_facts x1 S _ Hx HS Ht) as HEs.
-    change (S * (2 - S / x1) * tanh ((E - P) / x1) / (1 + (1 - S / x1) * tanh ((E - P) / x1)))
-      with (dryEs x1 S (tanh ((E - P) / x1))).
-    set (Es := dryEs x1 S (tanh ((E - P) / x1))) in *. cbv zeta.
-    replace (x1 * (1 - (S / x1) ^ 2) * 0 / (1 + S / x1 * 0)) with 0 by (unfold Rdiv; rewrite !Rmult_0_r; lra).
-    destruct (percS_facts x1 (S - Es + 0) Hx ltac:(lra)) as [Hpe _]. rewrite Hpe.
-    f_equal. lra.
+  intros. rewrite gr4j_production_capped by auto. now apply spec_production_cap_inactive.
 Qed.
 
 (** ** exchange, routing store and direct branch *)
@@ -556,13 +581,13 @@ Section Equal.
   Hypothesis Hn1 : is_ceil x4 n1.
   Hypothesis Hn2 : is_ceil (2 * x4) n2.
 
-  Lemma spec_run_cons S0 Rs q1 q9 P E io : length q1 = n2 -> length q9 = n1 ->
-    spec_run x1 x2 x3 x4 n1 n2 S0 Rs q1 q9 ((P, E) :: io) =
-    let (S1, Pr) := spec_production x1 S0 P E in
+  Lemma spec_run_cons th S0 Rs q1 q9 P E io : length q1 = n2 -> length q9 = n1 ->
+    spec_run_with th x1 x2 x3 x4 n1 n2 S0 Rs q1 q9 ((P, E) :: io) =
+    let (S1, Pr) := spec_production_with th x1 S0 P E in
     let q9a := uh_add (Pr * (9 / 10)) q9 (gr4j_uh1 x4 n1) in
     let q1a := uh_add (Pr * (1 / 10)) q1 (gr4j_uh2 x4 n2) in
     let (R1, Q) := spec_routing x2 x3 Rs (nth 0 q9a 0) (nth 0 q1a 0) in
-    let sp := spec_run x1 x2 x3 x4 n1 n2 S1 R1 (uh_shift q1a) (uh_shift q9a) io in
+    let sp := spec_run_with th x1 x2 x3 x4 n1 n2 S1 R1 (uh_shift q1a) (uh_shift q9a) io in
     {| sp_S := sp_S sp; sp_R := sp_R sp; sp_q1 := sp_q1 sp; sp_q9 := sp_q9 sp; sp_Q := Q :: sp_Q sp |}.
   Proof.
     intros Hl1 Hl9.
@@ -572,9 +597,9 @@ Section Equal.
     assert (Hu2 : forall i, nth i (gr4j_uh2 x4 n2) 0 = UH2 x4 (S i)) by (intros; apply uh2_nth; auto).
     assert (Hb9 : length q9 = length (gr4j_uh1 x4 n1)) by congruence.
     assert (Hb1 : length q1 = length (gr4j_uh2 x4 n2)) by congruence.
-    unfold spec_run. cbn [spec_production_run].
-    destruct (spec_production x1 S0 P E) as [S1 Pr].
-    destruct (spec_production_run x1 S1 io) as [ST prs].
+    unfold spec_run_with. cbn [spec_production_run_with].
+    destruct (spec_production_with th x1 S0 P E) as [S1 Pr].
+    destruct (spec_production_run_with th x1 S1 io) as [ST prs].
     cbn [length seq map]. rewrite <- !seq_shift, !map_map.
     rewrite (map_ext _ _ (fun t => conv_out_cons (9 / 10) (UH1 x4) (gr4j_uh1 x4 n1) Hu1 q9 Pr prs t Hb9)).
     rewrite (map_ext _ _ (fun t => conv_out_cons (1 / 10) (UH2 x4) (gr4j_uh2 x4 n2) Hu2 q1 Pr prs t Hb1)).
@@ -605,18 +630,13 @@ Section Equal.
     destruct (run _ _ io) as [s2 os]. reflexivity.
   Qed.
 
-  Definition cap_ok (io : list (R * R)) : Prop :=
-    Forall (fun x => Rabs (fst x - snd x) <= 13 * x1) io.
-
-  (** C15 [core]: run of the code = run of the published model, for every series and all
-      initial stores with 0 <= S <= x1, 0 <= R and unit-hydrograph stores of the right lengths
-      (their contents are arbitrary).  Side condition: |P - E| <= 13 x1 every day, because the
-      code caps the argument of tanh at 13 and the published equations do not. *)
-  Theorem gr4j_equals_published io : forall st,
+  (** C15 [core], unconditional form: the run of the code equals the run of the published model
+      with tanh(min(w,13)) in place of tanh(w), for EVERY non-negative series. *)
+  Theorem gr4j_equals_published_capped io : forall st,
     0 <= g_s st <= x1 -> 0 <= g_r st -> length (g_q1 st) = n2 -> length (g_q9 st) = n1 ->
-    io_nonneg io -> cap_ok io ->
+    io_nonneg io ->
     let r := gr4j_run x1 x2 x3 x4 n1 n2 st io in
-    let sp := spec_run x1 x2 x3 x4 n1 n2 (g_s st) (g_r st) (g_q1 st) (g_q9 st) io in
+    let sp := spec_run_capped x1 x2 x3 x4 n1 n2 (g_s st) (g_r st) (g_q1 st) (g_q9 st) io in
     g_s (fst r) = sp_S sp /\ g_r (fst r) = sp_R sp /\ g_q1 (fst r) = sp_q1 sp /\
     g_q9 (fst r) = sp_q9 sp /\ snd r = sp_Q sp.
   Proof.
@@ -624,19 +644,19 @@ Section Equal.
     destruct (gr4j_uh2_sums_to_one x4 n2 Hx4 Hn2) as [_ [_ Hlu2]].
     pose proof (is_ceil_pos x4 n1 Hx4 Hn1) as Hn1p.
     pose proof (is_ceil_pos (2 * x4) n2 ltac:(lra) Hn2) as Hn2p.
-    induction io as [|[P E] io IH]; intros st HS HR Hl1 Hl9 Hio Hcap.
-    - cbn. unfold spec_run. cbn.
+    unfold spec_run_capped.
+    induction io as [|[P E] io IH]; intros st HS HR Hl1 Hl9 Hio.
+    - cbn. unfold spec_run_with. cbn.
       rewrite (map_ext _ _ (conv_carry_nil (1 / 10) (UH2 x4) (g_q1 st))).
       rewrite (map_ext _ _ (conv_carry_nil (9 / 10) (UH1 x4) (g_q9 st))).
       rewrite <- Hl1 at 1. rewrite <- Hl9 at 1. rewrite !map_nth_seq. auto.
     - apply Forall_cons_iff in Hio. destruct Hio as [[HP HE] Hio'].
-      apply Forall_cons_iff in Hcap. destruct Hcap as [Hc Hcap'].
       cbn [fst snd] in *.
       cbv zeta. rewrite spec_run_cons by auto. rewrite gr4j_run_cons.
-      rewrite gr4j_production_spec by auto.
+      rewrite gr4j_production_capped by auto.
       pose proof (gr4j_production_facts x1 (g_s st) P E Hx1 HS HP HE) as Hpf. cbv zeta in Hpf.
-      rewrite gr4j_production_spec in Hpf by auto.
-      destruct (spec_production x1 (g_s st) P E) as [S1 Pr]. cbn [fst snd] in Hpf.
+      rewrite gr4j_production_capped in Hpf by auto.
+      destruct (spec_production_with tanh13 x1 (g_s st) P E) as [S1 Pr]. cbn [fst snd] in Hpf.
       destruct Hpf as [HS1 _]. cbv zeta.
       set (q9a := uh_add (Pr * (9 / 10)) (g_q9 st) (gr4j_uh1 x4 n1)).
       set (q1a := uh_add (Pr * (1 / 10)) (g_q1 st) (gr4j_uh2 x4 n2)).
@@ -649,9 +669,271 @@ Section Equal.
       assert (Hne1 : q1a <> []) by (intros E0; rewrite E0 in Hl1a; cbn in Hl1a; lia).
       specialize (IH {| g_s := S1; g_r := R1; g_q1 := uh_shift q1a; g_q9 := uh_shift q9a |}).
       cbn [g_s g_r g_q1 g_q9] in IH.
-      specialize (IH HS1 HR1 ltac:(rewrite uh_shift_length; auto) ltac:(rewrite uh_shift_length; auto) Hio' Hcap').
+      specialize (IH HS1 HR1 ltac:(rewrite uh_shift_length; auto) ltac:(rewrite uh_shift_length; auto) Hio').
       cbv zeta in IH.
       cbn [fst snd sp_S sp_R sp_q1 sp_q9 sp_Q].
       destruct IH as [A [B [C [D F]]]]. repeat split; auto. now rewrite F.
   Qed.
+
+  Definition cap_ok (io : list (R * R)) : Prop :=
+    Forall (fun x => Rabs (fst x - snd x) <= 13 * x1) io.
+
+  Lemma spec_production_run_cap_inactive io : cap_ok io -> forall S0,
+    spec_production_run_with tanh13 x1 S0 io = spec_production_run_with tanh x1 S0 io.
+  Proof.
+    induction io as [|[P E] io IH]; intros Hcap S0; [reflexivity|].
+    apply Forall_cons_iff in Hcap. destruct Hcap as [Hc Hcap']. cbn [fst snd] in Hc.
+    cbn [spec_production_run_with]. rewrite spec_production_cap_inactive by auto.
+    destruct (spec_production_with tanh x1 S0 P E) as [S1 Pr]. rewrite IH by auto. reflexivity.
+  Qed.
+
+  Lemma spec_run_cap_inactive io S0 Rs q1 q9 : cap_ok io ->
+    spec_run_capped x1 x2 x3 x4 n1 n2 S0 Rs q1 q9 io = spec_run x1 x2 x3 x4 n1 n2 S0 Rs q1 q9 io.
+  Proof.
+    intros H. unfold spec_run_capped, spec_run, spec_run_with.
+    rewrite spec_production_run_cap_inactive by auto. reflexivity.
+  Qed.
+
+  (** C15 [core]: run of the code = run of the published model, for every series and all
+      initial stores with 0 <= S <= x1, 0 <= R and unit-hydrograph stores of the right lengths
+      (their contents are arbitrary).  Side condition: |P - E| <= 13 x1 every day, because the
+      code caps the argument of tanh at 13 and the published equations do not. *)
+  Theorem gr4j_equals_published io st :
+    0 <= g_s st <= x1 -> 0 <= g_r st -> length (g_q1 st) = n2 -> length (g_q9 st) = n1 ->
+    io_nonneg io -> cap_ok io ->
+    let r := gr4j_run x1 x2 x3 x4 n1 n2 st io in
+    let sp := spec_run x1 x2 x3 x4 n1 n2 (g_s st) (g_r st) (g_q1 st) (g_q9 st) io in
+    g_s (fst r) = sp_S sp /\ g_r (fst r) = sp_R sp /\ g_q1 (fst r) = sp_q1 sp /\
+    g_q9 (fst r) = sp_q9 sp /\ snd r = sp_Q sp.
+  Proof.
+    intros HS HR Hl1 Hl9 Hio Hcap. rewrite <- spec_run_cap_inactive by auto.
+    apply gr4j_equals_published_capped; auto.
+  Qed.
 End Equal.
+
+(** ** the shift register of the code is a convolution (stand-alone form) *)
+Fixpoint sr_run (c : R) (uhl b prs : list R) : list R * list R :=
+  match prs with
+  | [] => (b, [])
+  | pr :: r => let a := uh_add (pr * c) b uhl in
+               let (bf, os) := sr_run c uhl (uh_shift a) r in (bf, nth 0 a 0 :: os)
+  end.
+
+Theorem gr4j_buffer_is_convolution c uh uhl : (forall i, nth i uhl 0 = uh (S i)) -> uhl <> [] ->
+  forall prs b, length b = length uhl ->
+  sr_run c uhl b prs =
+  (map (conv_carry c uh b prs (length prs)) (seq 0 (length b)),
+   map (conv_out c uh b prs) (seq 0 (length prs))).
+Proof.
+  intros Hu Hne. induction prs as [|pr prs IH]; intros b Hb.
+  - cbn. rewrite (map_ext _ _ (conv_carry_nil c uh b)), map_nth_seq. reflexivity.
+  - cbn [sr_run length]. 
+    assert (Hla : length (uh_add (pr * c) b uhl) = length b) by (apply uh_add_length; auto).
+    assert (Hnea : uh_add (pr * c) b uhl <> []).
+    { intros E0. rewrite E0 in Hla. cbn in Hla. destruct uhl; [congruence|]. rewrite Hb in Hla. cbn in Hla. lia. }
+    rewrite IH by (rewrite uh_shift_length; auto; congruence).
+    rewrite uh_shift_length, Hla by auto. f_equal.
+    + apply map_ext. intros i. symmetry. apply (conv_carry_cons c uh uhl Hu); auto.
+    + cbn [seq map]. rewrite <- seq_shift, map_map. f_equal.
+      * rewrite (conv_out_head c uh b pr prs). apply (buffer_step_out c uh uhl Hu); auto.
+      * apply map_ext. intros t. symmetry. apply (conv_out_cons c uh uhl Hu); auto.
+Qed.
+
+(** * Packaged statements under the boolean range predicate (restated in Properties/C10.v, C15.v) *)
+Definition gr4j_ok (x1 x3 x4 : R) : bool :=
+  Rleb 1 x1 && Rleb 1 x3 && Rleb (1 / 2) x4 && Rleb x4 4.
+
+Lemma gr4j_ok_spec x1 x3 x4 : gr4j_ok x1 x3 x4 = true -> 1 <= x1 /\ 1 <= x3 /\ 1 / 2 <= x4 <= 4.
+Proof.
+  unfold gr4j_ok. rewrite !andb_true_iff. intros [[[A B] C] D].
+  apply Rleb_true in A, B, C, D. lra.
+Qed.
+
+Example gr4j_ok_satisfiable : gr4j_ok 350 90 (17 / 10) = true /\ is_ceil (17 / 10) 2 /\ is_ceil (2 * (17 / 10)) 4.
+Proof.
+  split; [|split].
+  - unfold gr4j_ok. rewrite !andb_true_iff. repeat split; apply Rleb_true; lra.
+  - unfold is_ceil. simpl. lra.
+  - unfold is_ceil. simpl. lra.
+Qed.
+
+Theorem gr4j_uh_c10 : forall x4 n1 n2, 1 / 2 <= x4 <= 4 -> is_ceil x4 n1 -> is_ceil (2 * x4) n2 ->
+  (1 <= n1 <= 4)%nat /\ (1 <= n2 <= 8)%nat /\
+  Forall (fun u => 0 <= u) (gr4j_uh1 x4 n1) /\ rr_sum (gr4j_uh1 x4 n1) = 1 /\ length (gr4j_uh1 x4 n1) = n1 /\
+  Forall (fun u => 0 <= u) (gr4j_uh2 x4 n2) /\ rr_sum (gr4j_uh2 x4 n2) = 1 /\ length (gr4j_uh2 x4 n2) = n2.
+Proof.
+  intros x4 n1 n2 Hx H1 H2.
+  destruct (is_ceil_range x4 n1 n2 Hx H1 H2) as [A B].
+  destruct (gr4j_uh1_sums_to_one x4 n1 ltac:(lra) H1) as [C [D E]].
+  destruct (gr4j_uh2_sums_to_one x4 n2 ltac:(lra) H2) as [F [G H]].
+  repeat split; auto; lia.
+Qed.
+
+Theorem gr4j_uh_c15 : forall x4 n1 n2, 1 / 2 <= x4 <= 4 -> is_ceil x4 n1 -> is_ceil (2 * x4) n2 ->
+  gr4j_uh1 x4 n1 = map (fun i => UH1 x4 (S i)) (seq 0 n1) /\
+  gr4j_uh2 x4 n2 = map (fun i => UH2 x4 (S i)) (seq 0 n2) /\
+  (forall j, (n1 < j)%nat -> UH1 x4 j = 0) /\ (forall j, (n2 < j)%nat -> UH2 x4 j = 0).
+Proof.
+  intros x4 n1 n2 Hx H1 H2. repeat split.
+  - apply gr4j_uh1_is_scurve_difference; auto; lra.
+  - apply gr4j_uh2_is_scurve_difference; auto; lra.
+  - intros j Hj. apply (UH1_beyond x4 n1); auto; lra.
+  - intros j Hj. apply (UH2_beyond x4 n2); auto; lra.
+Qed.
+
+Theorem gr4j_c10 : forall x1 x2 x3 x4 n1 n2 st io,
+  gr4j_ok x1 x3 x4 = true -> is_ceil x4 n1 -> is_ceil (2 * x4) n2 ->
+  gr4j_inv x1 n1 n2 st -> io_nonneg io ->
+  let r := gr4j_run x1 x2 x3 x4 n1 n2 st io in
+  gr4j_inv x1 n1 n2 (fst r) /\ Forall (fun q => 0 <= q) (snd r) /\
+  (g_r st < x3 -> g_r (fst r) < x3) /\
+  (x2 <= 0 ->
+     gr4j_stock (fst r) + rr_sum (snd r) <= gr4j_stock st + rr_sum (map fst io) /\
+     forall t, rr_sum (firstn t (snd r)) <= rr_sum (firstn t (map fst io)) + gr4j_stock st) /\
+  (x2 = 0 -> Forall (fun x => snd x = 0) io ->
+     rr_sum (map fst io) = rr_sum (snd r) + (gr4j_stock (fst r) - gr4j_stock st)).
+Proof.
+  intros x1 x2 x3 x4 n1 n2 st io Hok H1 H2 Hinv Hio.
+  destruct (gr4j_ok_spec _ _ _ Hok) as [A [B C]].
+  assert (Hx1 : 0 < x1) by lra. assert (Hx3 : 0 < x3) by lra. assert (Hx4 : 0 < x4) by lra.
+  cbv zeta.
+  destruct (gr4j_stores_bounded x1 x2 x3 x4 n1 n2 Hx1 Hx3 Hx4 H1 H2 st io Hinv Hio) as [I1 I2].
+  split; [exact I1|]. split; [exact I2|]. split; [|split].
+  - intros Hr. apply gr4j_routing_store_below_capacity; auto.
+  - intros Hx2. apply gr4j_no_water_created; auto.
+  - intros Hx2 Hpet. apply gr4j_balance_exact; auto.
+Qed.
+
+Theorem gr4j_c15 : forall x1 x2 x3 x4 n1 n2 st io,
+  gr4j_ok x1 x3 x4 = true -> is_ceil x4 n1 -> is_ceil (2 * x4) n2 ->
+  0 <= g_s st <= x1 -> 0 <= g_r st -> length (g_q1 st) = n2 -> length (g_q9 st) = n1 ->
+  io_nonneg io -> cap_ok x1 io ->
+  let r := gr4j_run x1 x2 x3 x4 n1 n2 st io in
+  let sp := spec_run x1 x2 x3 x4 n1 n2 (g_s st) (g_r st) (g_q1 st) (g_q9 st) io in
+  g_s (fst r) = sp_S sp /\ g_r (fst r) = sp_R sp /\ g_q1 (fst r) = sp_q1 sp /\
+  g_q9 (fst r) = sp_q9 sp /\ snd r = sp_Q sp.
+Proof.
+  intros x1 x2 x3 x4 n1 n2 st io Hok H1 H2.
+  destruct (gr4j_ok_spec _ _ _ Hok) as [A [B C]].
+  apply gr4j_equals_published; auto; lra.
+Qed.
+
+Theorem gr4j_c15_capped : forall x1 x2 x3 x4 n1 n2 st io,
+  gr4j_ok x1 x3 x4 = true -> is_ceil x4 n1 -> is_ceil (2 * x4) n2 ->
+  0 <= g_s st <= x1 -> 0 <= g_r st -> length (g_q1 st) = n2 -> length (g_q9 st) = n1 ->
+  io_nonneg io ->
+  let r := gr4j_run x1 x2 x3 x4 n1 n2 st io in
+  let sp := spec_run_capped x1 x2 x3 x4 n1 n2 (g_s st) (g_r st) (g_q1 st) (g_q9 st) io in
+  g_s (fst r) = sp_S sp /\ g_r (fst r) = sp_R sp /\ g_q1 (fst r) = sp_q1 sp /\
+  g_q9 (fst r) = sp_q9 sp /\ snd r = sp_Q sp.
+Proof.
+  intros x1 x2 x3 x4 n1 n2 st io Hok H1 H2.
+  destruct (gr4j_ok_spec _ _ _ Hok) as [A [B C]].
+  apply gr4j_equals_published_capped; auto; lra.
+Qed.
+
+Lemma tanh13_cap13 w : tanh13 w = tanh (cap13 w).
+Proof. unfold tanh13. now rewrite cap13_Rmin. Qed.
+
+(** the cap on the tanh argument is immaterial: for w >= 13, tanh w is within 5e-11 of 1,
+    so the capped and the published values differ by less than 5e-11 *)
+Lemma exp_nat_mul n x : exp (INR n * x) = exp x ^ n.
+Proof.
+  induction n as [|n IH]; [simpl; rewrite Rmult_0_l; apply exp_0|].
+  rewrite S_INR, Rmult_plus_distr_r, Rmult_1_l, exp_plus, IH. simpl. ring.
+Qed.
+
+(** e^26 = (e^(1/8))^208 > (9/8)^208 > 4e10, the last step by integer computation *)
+Lemma exp26_big : 40000000000 < exp 26.
+Proof.
+  assert (H : 9 / 8 < exp (1 / 8)) by (pose proof (exp_ineq1 (1 / 8) ltac:(lra)); lra).
+  replace 26 with (INR 208 * (1 / 8)) by (rewrite INR_IZR_INZ; simpl; lra).
+  rewrite exp_nat_mul.
+  apply Rlt_le_trans with ((9 / 8) ^ 208); [|apply pow_incr; lra].
+  unfold Rdiv. rewrite Rpow_mult_distr, pow_inv, !pow_IZR.
+  apply Rmult_lt_reg_r with (IZR (8 ^ Z.of_nat 208)).
+  - apply IZR_lt. vm_compute. reflexivity.
+  - rewrite Rmult_assoc, Rinv_l by (apply not_0_IZR; vm_compute; discriminate).
+    rewrite Rmult_1_r, <- mult_IZR. apply IZR_lt. vm_compute. reflexivity.
+Qed.
+
+Lemma one_minus_tanh_small w : 13 <= w -> 0 < 1 - tanh w < 5 / 100000000000.
+Proof.
+  intros Hw. pose proof (tanh_lt_1 w). split; [lra|].
+  assert (Hp := exp_pos w). assert (Hn := exp_pos (- w)).
+  assert (Hprod : exp w * exp (- w) = 1) by (rewrite <- exp_plus; replace (w + - w) with 0 by lra; apply exp_0).
+  assert (H13 : exp 13 <= exp w) by (destruct Hw as [Hw| <-]; [left; apply exp_increasing; auto|lra]).
+  assert (H26 : exp 26 = exp 13 * exp 13) by (rewrite <- exp_plus; f_equal; lra).
+  pose proof exp26_big as Hbig. assert (Hp13 := exp_pos 13).
+  assert (Hsq : 40000000000 < exp w * exp w) by nra.
+  unfold tanh, sinh, cosh.
+  replace (1 - (exp w - exp (- w)) / 2 / ((exp w + exp (- w)) / 2))
+    with (2 * exp (- w) / (exp w + exp (- w))) by (field; lra).
+  apply Rmult_lt_reg_r with (exp w + exp (- w)); [lra|].
+  unfold Rdiv at 1. rewrite Rmult_assoc, Rinv_l by lra.
+  assert (exp (- w) * 40000000000 < exp w).
+  { replace (exp w) with (exp w * exp w * exp (- w)) at 2 by (rewrite Rmult_assoc, Hprod; lra). nra. }
+  nra.
+Qed.
+
+Lemma tanh_cap_error w : 13 <= w -> Rabs (tanh w - tanh (cap13 w)) < 5 / 100000000000.
+Proof.
+  intros Hw.
+  assert (Hc : cap13 w = 13).
+  { unfold cap13. runfold. destruct (Rltb 13 w) eqn:E; auto. apply Rltb_false in E. lra. }
+  rewrite Hc. pose proof (one_minus_tanh_small w Hw). pose proof (one_minus_tanh_small 13 ltac:(lra)).
+  apply Rabs_def1; lra.
+Qed.
+
+(** * The state vector: InitialiseStates and the kernel wrapper *)
+Lemma Rtrunc_INR n : Rtrunc (INR n) = Z.of_nat n.
+Proof.
+  unfold Rtrunc. destruct (Rle_dec 0 (INR n)) as [_|H]; [apply Int_part_INR|].
+  exfalso. apply H. apply pos_INR.
+Qed.
+
+Lemma Rtrunc_Rceil x : 0 < x -> exists n : nat, Rtrunc (Rceil x) = Z.of_nat n /\ is_ceil x n.
+Proof.
+  intros Hx. unfold Rceil.
+  destruct (base_Int_part (- x)) as [H1 H2].
+  set (k := (- Int_part (- x))%Z).
+  assert (Hk : - IZR (Int_part (- x)) = IZR k) by (unfold k; rewrite opp_IZR; reflexivity).
+  rewrite Hk. assert (Hk1 : x <= IZR k < x + 1) by lra.
+  assert (Hk0 : (0 <= k)%Z). { apply le_IZR. lra. }
+  exists (Z.to_nat k).
+  assert (Hn : INR (Z.to_nat k) = IZR k) by (rewrite INR_IZR_INZ, Z2Nat.id; auto).
+  split.
+  - rewrite <- Hn, Rtrunc_INR, Z2Nat.id; auto.
+  - unfold is_ceil. rewrite Hn. lra.
+Qed.
+
+(** initGR4J produces [0, 0, n1, n2, zeros] with n1 = ceil(x4), n2 = ceil(2 x4) *)
+Theorem gr4j_init_states x4 : 0 < x4 ->
+  exists n1 n2, is_ceil x4 n1 /\ is_ceil (2 * x4) n2 /\
+    gr4j_init x4 = [0; 0; INR n1; INR n2] ++ repeat 0 n2 ++ repeat 0 n1.
+Proof.
+  intros Hx. destruct (Rtrunc_Rceil x4 Hx) as [n1 [E1 C1]].
+  destruct (Rtrunc_Rceil (2 * x4) ltac:(lra)) as [n2 [E2 C2]].
+  exists n1, n2. split; auto. split; auto.
+  unfold gr4j_init. runfold. cbn [truncZ aceil RArith]. rewrite E1, E2, !Nat2Z.id, <- !INR_IZR_INZ. reflexivity.
+Qed.
+
+(** on a well-formed state vector the kernel wrapper is unpack; run; pack *)
+Theorem gr4j_kernel_run x1 x2 x3 x4 n1 n2 s r q1 q9 rain pet :
+  (1 <= n1)%nat -> (1 <= n2)%nat -> length q1 = n2 -> length q9 = n1 ->
+  gr4j_kernel [x1; x2; x3; x4] (s :: r :: INR n1 :: INR n2 :: q1 ++ q9) [rain; pet] =
+  let res := gr4j_run x1 x2 x3 x4 n1 n2 {| g_s := s; g_r := r; g_q1 := q1; g_q9 := q9 |} (combine rain pet) in
+  Some ([snd res], g_s (fst res) :: g_r (fst res) :: INR n1 :: INR n2 :: g_q1 (fst res) ++ g_q9 (fst res) ++ []).
+Proof.
+  intros H1 H2 Hl1 Hl9. subst n1 n2. unfold gr4j_kernel. cbn [truncZ RArith]. rewrite !Rtrunc_INR, !Nat2Z.id.
+  assert (Hc : ((1 <=? Z.of_nat (length q9)) && (1 <=? Z.of_nat (length q1)) &&
+                (Z.of_nat (length q9) + Z.of_nat (length q1) <=? Z.of_nat (length (q1 ++ q9))))%Z = true).
+  { rewrite app_length. rewrite !andb_true_iff. repeat split; apply Z.leb_le; lia. }
+  rewrite Hc.
+  rewrite firstn_app, Nat.sub_diag, firstn_O, app_nil_r, firstn_all.
+  rewrite skipn_app, Nat.sub_diag, skipn_all. cbn [skipn app]. rewrite firstn_all.
+  replace (skipn (length q1 + length q9) (q1 ++ q9)) with (@nil R)
+    by (symmetry; apply skipn_all2; rewrite app_length; lia).
+  cbv zeta. destruct (gr4j_run _ _ _ _ _ _ _ _) as [st' qs]. cbn [fst snd of_Z RArith].
+  rewrite <- !INR_IZR_INZ. reflexivity.
+Qed.
